@@ -128,8 +128,10 @@ def main(argv):
         'wall_s': round(wall, 2),
         'violations': len(viol),
     }
-    os.makedirs(os.path.join(VERIF, 'evidence'), exist_ok=True)
-    with open(os.path.join(VERIF, 'evidence', pid + '.json'), 'w') as f:
+    # development runs against a scratch copy (VERIF_REPO=...) must not overwrite the evidence of /repo
+    evdir = os.path.join(VERIF, 'evidence') if not os.environ.get('VERIF_REPO') else os.path.join(VERIF, 'build', 'evidence-scratch')
+    os.makedirs(evdir, exist_ok=True)
+    with open(os.path.join(evdir, pid + '.json'), 'w') as f:
         json.dump(ev, f, indent=1, sort_keys=True)
     print('[%s %s] %d obligations over %d rules, %d functions analysed, %.1fs' % (pid, tier, total, len(per_rule), len(ctx.analysed['functions']), wall))
     for r, c in sorted(per_rule.items()):
